@@ -262,7 +262,7 @@ impl Prop for C03 {
     }
     fn exhaustive_scopes(&self, _tier: Tier) -> Vec<String> {
         vec![
-            "all histories of length <= 3 over the full alphabet, for all sorted multisets of 1..=3 ends over {-1,-0.0,0.0,1,nextup(1)}".into(),
+            "all histories of length <= 3 (thorough tier: <= 4) over the full alphabet, for all sorted multisets of 1..=3 ends over {-1,-0.0,0.0,1,nextup(1)}".into(),
             "reachable-state fixpoint (all (state, query) pairs) per generated list and its alphabet".into(),
         ]
     }
@@ -296,12 +296,20 @@ pub fn extras_impl(
         let alpha = gen::alphabet(ends, extra, with_nan);
         let spec = PwSpec { kind: 0, ends: ends.iter().map(|&e| B(e)).collect(), pool: vec![] };
         let m = alpha.len();
-        // all histories of length exactly 3 (their prefixes cover lengths 1, 2)
+        // all histories of length exactly 3 (their prefixes cover lengths 1, 2); thorough: length 4
+        let deep = tier == Tier::Thorough;
         for i in 0..m {
             for j in 0..m {
                 for k in 0..m {
-                    let xs = vec![B(alpha[i]), B(alpha[j]), B(alpha[k])];
-                    sink(Case { pw: spec.clone(), xs }, "short-histories");
+                    if deep {
+                        for l in 0..m {
+                            let xs = vec![B(alpha[i]), B(alpha[j]), B(alpha[k]), B(alpha[l])];
+                            sink(Case { pw: spec.clone(), xs }, "short-histories");
+                        }
+                    } else {
+                        let xs = vec![B(alpha[i]), B(alpha[j]), B(alpha[k])];
+                        sink(Case { pw: spec.clone(), xs }, "short-histories");
+                    }
                 }
             }
         }
